@@ -415,24 +415,29 @@ class SimPool:
             worker = self.idle.pop(0)
             job, index, blob, count, start_position, chunk_id = self.queue.popleft()
             mode, func, chunk = pickle.loads(blob)     # the worker's private copy
-            executed = 0
+            calls = [0]
+
+            def counted(*args: Any, **kwargs: Any) -> Any:
+                calls[0] += 1
+                return func(*args, **kwargs)
             try:
                 if mode == "apply":
-                    value = _apply(func, chunk)
-                    executed = 1
+                    value = _apply(counted, chunk)
                 elif mode == "map1":
-                    executed = 1
-                    value = func(chunk[0])
+                    value = counted(chunk[0])
+                elif mode == "starmap":
+                    # exactly what the stdlib worker runs (mapstar / starmapstar): note that a StopIteration
+                    # raised by a call ends the iteration silently and the chunk's result is just shorter
+                    value = _starmapstar(counted, chunk)
                 else:
-                    value = []
-                    star = mode == "starmap"
-                    for item in chunk:
-                        executed += 1
-                        value.append(func(*item) if star else func(item))
+                    value = _mapstar(counted, chunk)
+                if mode in ("map", "starmap") and len(value) != len(chunk):
+                    self.sched.fired["chunk_truncated_by_stopiteration"] += 1
                 outcome = (True, value)
             except Exception as err:  # pylint: disable=broad-except
                 outcome = (False, err)
                 self.sched.fired["task_raised"] += 1
+            executed = calls[0]
             duration = sum(self._duration(start_position + offset) for offset in range(max(executed, 1)))
             covered = range(start_position, start_position + count)
             if any(pos in covered for pos in (batch.get("kill_positions") or [])):
